@@ -22,6 +22,9 @@
 //     Round3P2P, 4: Round4Broadcast + Round4P2P, 5: the PartialSignature.
 //     Every message goes once per recipient through drive.Pass (CBOR round trip + hook).
 //   - Every party step runs inside drive.Step; a party stops after its first non-ok verdict.
+//   - cfg.API = "runner": the parties are made with signing_{bbot,softspoken}.NewRunner and run
+//     concurrently through network.Router over an in-memory transport (drive/keys.RunRunners);
+//     messages then do not pass through drive.Pass and the tape mark is "run" throughout.
 //   - Aggregation: dkls23.Aggregate is a public function of (suite, pk, message, partial
 //     signatures); it is run by "aggregator 0" on the partial signatures in ascending sender
 //     order and once more on the reversed order (id 0 output must not depend on the order;
@@ -38,7 +41,9 @@ import (
 	"fmt"
 	"hash"
 	"math/big"
+	"strings"
 	"sync"
+	"time"
 
 	"github.com/bronlabs/bron-crypto/pkg/base/algebra"
 	"github.com/bronlabs/bron-crypto/pkg/base/curves"
@@ -56,6 +61,7 @@ import (
 	"github.com/bronlabs/bron-crypto/pkg/mpc/signatures/ecdsa/dkls23/signing_bbot"
 	"github.com/bronlabs/bron-crypto/pkg/mpc/signatures/ecdsa/dkls23/signing_softspoken"
 	"github.com/bronlabs/bron-crypto/pkg/mpc/zero/przs"
+	"github.com/bronlabs/bron-crypto/pkg/network"
 	"github.com/bronlabs/bron-crypto/pkg/signatures/ecdsa"
 
 	"verif/harness/internal/drive"
@@ -278,7 +284,33 @@ func run[P curves.Point[P, B, S], B algebra.PrimeFieldElement[B], S algebra.Prim
 		}
 	})
 	partials := map[sharing.ID]*rdkls.PartialSignature[P, B, S]{}
+	if cfg.API == "runner" {
+		runners := map[sharing.ID]network.Runner[*rdkls.PartialSignature[P, B, S]]{}
+		e.Construct(func(id sharing.ID) error {
+			var r network.Runner[*rdkls.PartialSignature[P, B, S]]
+			var err error
+			switch mult {
+			case "bbot":
+				r, err = signing_bbot.NewRunner(ctxs[id], suite, shards[id], cfg.Message, e.Tr.Tapes[id])
+			case "softspoken":
+				r, err = signing_softspoken.NewRunner(ctxs[id], suite, shards[id], cfg.Message, e.Tr.Tapes[id])
+			default:
+				err = fmt.Errorf("unknown multiplier %q", mult)
+			}
+			if err != nil {
+				return err
+			}
+			runners[id] = r
+			return nil
+		})
+		for id, ps := range keys.RunRunners(e, runners, 20*time.Minute) {
+			partials[id] = ps
+		}
+		mult += "/runner"
+	}
 	switch mult {
+	case "bbot/runner", "softspoken/runner":
+		mult = strings.TrimSuffix(mult, "/runner")
 	case "bbot":
 		runBbot(e, cfg, suite, shards, ctxs, partials)
 	case "softspoken":
